@@ -14,8 +14,7 @@ import sys
 from . import _common
 
 AREA = 'hash'
-MODULES = ['_MD2', '_MD4', '_MD5', '_SHA1', '_SHA224', '_SHA256', '_SHA384', '_SHA512', '_RIPEMD160', '_keccak', '_BLAKE2b', '_BLAKE2s', '_poly1305',
-           '_raw_aes', '_raw_aesni', '_raw_ecb', '_raw_des3', '_chacha20', '_cpuid_c', '_strxor', '_ghash_portable', '_ghash_clmul']
+MODULES = None      # rebuild every extension module of setup.py (about 3 s): nothing stale can be reached indirectly
 
 
 def det(tag, n):
